@@ -369,6 +369,8 @@ class LogicalType(type):  # noqa
                     # like NormalFloat = AllOf(Float, Not(AbnormalFloat))('3.3')
                     value = context.transformer(value, con)
                 except Exception as e:
+                    if not isinstance(e, exc.ParseError):
+                        e = exc.ParseError(value=value, type=con, origin_exc=e)
                     context.handle_error(e)
                     break
             # do not return here: an error collected above (collect_errors=True) must be raised below
